@@ -378,6 +378,8 @@ var (
 	twoWords = Seq(C(word), T(" "), C(word))
 	// text with NGINX variables written ${name}: word (${word} word)*, or a plain $variable text
 	varText = Alt(Seq(C(word), Many(T("${"), C(word), T("}"), C(word))), C(wvar))
+	// nginx.org/limit-req-key: bare-word text, $name and ${name} in any order
+	keyText = Many(Alt(C(bare), Seq(T("${"), C(word), T("}"))))
 	// key of the `hash` load-balancing method
 	hashKey = Alt(C(wvar), Seq(T("${"), C(word), T("}")))
 	// "<number> <size>" of proxy_buffers, or empty (the site is guarded by {{if}})
@@ -414,8 +416,8 @@ var FieldClass = map[string]string{
 	"version1.LimitReq.Zone":                       word,                                           // generated <ns>/<name>
 	"version1.LimitReq.LogLevel":                   logLevel,                                       // ANN: slices.Contains enum, default error
 	"version1.LimitReqZone.Name":                   word,                                           // generated
-	"version1.LimitReqZone.Rate":                   word,                                           // PH ParseRequestRate ^(\d+)(r/s|r/m)$ (generator side; annotation itself unvalidated, F26)
-	"version1.LimitReqZone.Size":                   word,                                           // PH ParseSize (generator side, F26)
+	"version1.LimitReqZone.Rate":                   word,                                           // VAL validateLimitReqRateAnnotation + PH ParseRequestRate ^(\d+)(r/s|r/m)$ (Tmpl.Validators ing_rate, ing_rate_word)
+	"version1.LimitReqZone.Size":                   word,                                           // VAL validateSizeAnnotation + PH ParseSize (size_word)
 	"version1.Location.ClientMaxBodySize":          word,                                           // PH ParseOffset \d+[kKmMgG]? ; SUSPECT: validator trims, generator stores the raw annotation
 	"version1.Location.ProxyBufferSize":            word,                                           // size; same trim mismatch
 	"version1.Location.ProxyMaxTempFileSize":       word,                                           // size; same trim mismatch
@@ -423,7 +425,7 @@ var FieldClass = map[string]string{
 	"version1.Location.ProxyReadTimeout":           word,                                           // time
 	"version1.Location.ProxySendTimeout":           word,                                           // time
 	"version1.Location.ProxySSLName":               word,                                           // generated <svc>.<ns>.svc
-	"version1.Location.Rewrite":                    bare,                                           // KNOWN WEAK F27: PH pathRegexp ^/[^\s{};$]*$ admits a backslash; printed glued to the upstream name
+	"version1.Location.Rewrite":                    bare,                                           // PH pathRegexp ^/[^\s{};$\\]*$ (backslash excluded since d7c2e82, F27 fixed; ing_rewrite_safe); printed glued to the upstream name
 	"version1.Location.ServiceName":                word,                                           // backend service name (DNS-1035 by the API server); printed inside "..."
 	"version1.Server.AppProtectDosAccessLogDst":    word,                                           // stderr | syslog:server=<host:port>, dos validation anchored regexes
 	"version1.Server.AppProtectDosAllowListPath":   word,                                           // generated file path; printed inside "..."
@@ -509,8 +511,8 @@ var FieldClass = map[string]string{
 	"version2.ErrorPageLocation.DefaultType":        dq,                                        // VAL validateActionReturnType ^([^;\{\}"\\]|\\.)*$ ; inside "..."
 	"version2.ReturnLocation.Name":                  word,                                      // generated @return_n
 	"version2.ReturnLocation.DefaultType":           dq,                                        // same validator
-	"version2.Header.Name":                          word,                                      // IsHTTPHeaderName for proxy set/add headers and errorPage headers; SUSPECT: action.return.headers unvalidated
-	"version2.Header.Value":                         dq,                                        // escaped string + variable whitelist; SUSPECT: action.return.headers unvalidated; inside "..."
+	"version2.Header.Name":                          word,                                      // IsHTTPHeaderName for proxy set/add headers, errorPage headers and (since 7a5e973, F52 fixed) action.return.headers (http_header_name_word)
+	"version2.Header.Value":                         dq,                                        // escaped string (+ variable whitelist); action.return.headers: ValidateEscapedString since 7a5e973 (F52 fixed; escaped_dq_safe); inside "..."
 	"version2.Return.Text":                          dq,                                        // VAL validateEscapedStringWithVariables; inside "..."
 	"version2.ErrorPage.Name":                       dq,                                        // redirect URL (escaped string) or generated @name; inside "..."
 	"version2.Location.ServiceName":                 word,                                      // upstream.service DNS-1035; inside "..."
@@ -604,7 +606,7 @@ var FieldClass = map[string]string{
 	"version2.StreamHealthCheck.Timeout":             word,               // time
 	"version2.StreamHealthCheck.Match":               word,               // generated
 	"version2.Match.Name":                            word,               // generated
-	"version2.Match.Send":                            dq,                 // SUSPECT: VAL transportserver.go validateTransportServerMatch passes match.Expect to validateMatchSend, Send itself is never validated; inside "..."
+	"version2.Match.Send":                            dq,                 // VAL validateMatchSend (escaped string + hex literals) on match.Send since c1888e6 (F62 fixed; escaped_dq_safe); inside "..."
 	"version2.Match.Expect":                          dq,                 // VAL validateMatchExpect escaped string; inside "..."
 	"version2.Match.ExpectRegexModifier":             Lit("", "~", "~*"), // TS generateTransportServerHealthCheck
 	"version2.TLSPassthroughHostsConfig[key]":        word,               // TransportServer spec.host (VAL validateHost)
@@ -635,7 +637,7 @@ var Shape = map[string]Pat{
 	"version2.Parameter.Value":  Alt(C(quote), C(Lit(`\default`, `\hostnames`, `\include`, `\volatile`)), C(word)), // VS generateValueForMatchesRouteMap "%s" of an escaped string; ~^0*1; default; SUSPECT: rate-limit jwt match
 	"version2.Parameter.Result": Alt(C(quote), C(Lit(`''`)), varText),                                              // 0 / 1 / $variable / internal location / "" / '' / "client id" / Val<rate-limit key with ${var}>
 	// rate-limit keys: text with ${var} references
-	"version1.LimitReqZone.Key": varText, // KNOWN WEAK F26 (annotation nginx.org/limit-req-key unvalidated); default ${binary_remote_addr}
+	"version1.LimitReqZone.Key": keyText, // VAL limitReqKeyRegexp ^(\$\{\w+\}|\$\w+|[^\s;{}\\"'#$])+$ since 3e8e85f (F26 fixed; limit_req_key_bare_safe); default ${binary_remote_addr}
 	"version2.LimitReqZone.Key": varText, // VAL validateRateLimitKey; SUSPECT: text outside ${...} is only an escaped string (space ; { } pass)
 	// location paths
 	"version1.Location.Path":                 Seq(Opt(T("= ")), C(bare)),                                    // KNOWN WEAK F06; ING generateIngressPath prefixes "= " for pathType Exact
@@ -725,10 +727,6 @@ var Doubtful = []string{
 // KnownWeak: fields that do NOT in fact satisfy the class their site needs (recorded defects of
 // /repo); classified with the class the site needs; value = finding id.
 var KnownWeak = map[string]string{
-	"version1.LimitReqZone.Key":                   "F26",
-	"version1.LimitReqZone.Rate":                  "F26",
-	"version1.LimitReqZone.Size":                  "F26",
-	"version1.Location.Rewrite":                   "F27",
 	"version1.Upstream.StickyCookie":              "F28",
 	"version2.StreamUpstream.LoadBalancingMethod": "F29",
 	"version1.Location.Path":                      "F06",
@@ -749,8 +747,6 @@ var Suspect = map[string]string{
 	"version1.HealthCheck.URI":                "Pod readinessProbe httpGet.path is printed bare uri=X without any check",
 	"version1.HealthCheck.Headers[val]":       "Pod readinessProbe header value printed inside \"...\" without any check",
 	"version2.HealthCheck.GRPCService":        "^[^\\s{};]*$ admits a trailing backslash which swallows the terminating ;",
-	"version2.Header.Name":                    "action.return.headers[].name is not validated (VAL validateActionReturn); printed bare",
-	"version2.Header.Value":                   "action.return.headers[].value is not validated; printed inside \"...\"",
 	"version2.Location.Path":                  "regex route with action.redirect / action.return keeps the raw path (VS generateLocationForRedirect/Return), e.g. `~ [0-9a-z]{4}`",
 	"version2.InternalRedirectLocation.Path":  "raw route path for matches/splits; regex paths are escaped strings",
 	"version2.Location.Rewrites[]":            "VS generateRewrites: TrimSpace after stripping ~ can leave a lone backslash before the closing quote; internal non-regex path may hold a double quote",
@@ -773,6 +769,5 @@ var Suspect = map[string]string{
 	"version2.OIDC.AuthExtraArgs":             "url.ParseQuery only; double quote and backslash pass; printed inside \"...\"",
 	"version2.OIDC.PostLogoutRedirectURI":     "validatePath pathFmt admits a double quote; printed inside \"...\"",
 	"version2.OIDC.RedirectURI":               "same",
-	"version2.Match.Send":                     "TransportServer healthCheck.match.send is never validated (validateMatchSend is called with match.Expect); printed inside \"...\"",
 	"pipe:makeLocationPath | printf":          "v1 templates use the location path as a printf FORMAT: % sequences are rewritten (/a%20b -> /a%!b(MISSING)) and with path-regex `%\\\"` leaves the quotes",
 }
